@@ -148,7 +148,9 @@ def correspondence(ck: Check, tier):
                 u = "1 1 1 1"
                 ms = drive([f"sym {r} {c} {code} {u} {arr2h(im)}"])[0].split()
                 mS = h2arr(ms[3:]).reshape(r, c)
-                if np.abs(mS - S).max() > 1e-13 * max(1.0, np.abs(im).max()):
+                if np.shape(S) != mS.shape:
+                    ck.disagree("K.fourier", case, f"implementation returns shape {np.shape(S)}, model {mS.shape}")
+                elif np.abs(mS - S).max() > 1e-13 * max(1.0, np.abs(im).max()):
                     ck.disagree("K.fourier", case, f"differs from the mirror-average model by {np.abs(mS - S).max():.3g}")
 
 
